@@ -29,9 +29,12 @@ namespace {
 // =====================================================================================================
 // 1. Tree description: pure data, shared by the library-side builder and the independent evaluator
 // =====================================================================================================
-enum Dom : int { D_INT, D_PINT, D_UPINT, D_SPINT, D_STR, D_CSTR, D_S, D_PS, D_COUNT };
-const char* const DOM_NAME[D_COUNT] = {"int", "int*", "unique_ptr<int>", "shared_ptr<int>", "std::string", "char const*", "S", "S*"};
-const char* const DOM_KEY[D_COUNT] = {"int", "pint", "upint", "spint", "str", "cstr", "S", "pS"};
+// D_HND / D_NHND / D_CPINT: pointer-like parameter types whose null test is not the built-in one (section 3: Handle is only
+// comparable with itself and implicitly constructible from nullptr; NHandle has dedicated nullptr_t comparisons and an
+// explicit operator bool; int const* has a const pointee). New domains are appended: the keys are the replay format.
+enum Dom : int { D_INT, D_PINT, D_UPINT, D_SPINT, D_STR, D_CSTR, D_S, D_PS, D_HND, D_NHND, D_CPINT, D_COUNT };
+const char* const DOM_NAME[D_COUNT] = {"int", "int*", "unique_ptr<int>", "shared_ptr<int>", "std::string", "char const*", "S", "S*", "Handle", "NHandle", "int const*"};
+const char* const DOM_KEY[D_COUNT] = {"int", "pint", "upint", "spint", "str", "cstr", "S", "pS", "hnd", "nhnd", "cpint"};
 
 enum Kind : int { K_REL, K_WILD, K_ANY, K_VALUE, K_NULLCMP, K_RE, K_NOT, K_DEREF, K_ANYOF, K_ALLOF, K_NONEOF, K_MEMBER, K_COUNT };
 const char* const KIND_KEY[K_COUNT] = {"rel", "wild", "any", "value", "nullcmp", "re", "not", "deref", "anyof", "allof", "noneof", "member"};
@@ -58,7 +61,7 @@ constexpr int NPOOL = 12, NPAT = 10;
 const char* const POOL[NPOOL] = {"", "a", "A", "ab", "abc", "ABC", "b", "foo", "Foo", "barfoo", "a.c", "abcabc"};
 const char* const PATS[NPAT] = {"a", "^a", "c$", "^abc$", "a.c", "a\\.c", "fo+", "^$", "[A-Z]", "(abc)+$"};
 
-bool is_ptr_dom(Dom d) { return d == D_PINT || d == D_UPINT || d == D_SPINT || d == D_PS; }
+bool is_ptr_dom(Dom d) { return d == D_PINT || d == D_UPINT || d == D_SPINT || d == D_PS || d == D_HND || d == D_NHND || d == D_CPINT; }
 Dom pointee_dom(Dom d) { return d == D_PS ? D_S : D_INT; }
 bool is_set(Kind k) { return k == K_ANYOF || k == K_ALLOF || k == K_NONEOF; }
 bool is_comb(Kind k) { return k == K_NOT || k == K_DEREF || is_set(k) || k == K_MEMBER; }
@@ -67,7 +70,7 @@ bool is_comb(Kind k) { return k == K_NOT || k == K_DEREF || is_set(k) || k == K_
 // costs compile time). mask bit i set = operand i is handed over as a plain value, otherwise as a type-erased sub-matcher.
 // The same function drives the static instantiation (if constexpr) and the run-time normalisation of generated trees,
 // so what is rendered is what is built.
-constexpr size_t max_arity(Dom d) { return d == D_INT ? 4 : d == D_STR ? 3 : (d == D_SPINT || d == D_PS) ? 0 : 2; }
+constexpr size_t max_arity(Dom d) { return d == D_INT ? 4 : d == D_STR ? 3 : (d == D_SPINT || d == D_PS || d == D_NHND || d == D_CPINT) ? 0 : 2; }
 constexpr bool sig_ok(Dom d, bool typed, size_t n, unsigned mask) {
   if (n < 1 || n > max_arity(d)) return false;
   switch (d) {
@@ -293,7 +296,9 @@ struct Val { bool null = false; int i = 0; int si = 0; };
 std::string val_str(Dom d, const Val& v) {
   switch (d) {
     case D_INT: return std::to_string(v.i);
-    case D_PINT: case D_UPINT: case D_SPINT: return v.null ? "nullptr" : "&" + std::to_string(v.i);
+    case D_PINT: case D_UPINT: case D_SPINT: case D_CPINT: return v.null ? "nullptr" : "&" + std::to_string(v.i);
+    case D_HND: return v.null ? "Handle(nullptr)" : "Handle(&" + std::to_string(v.i) + ")";
+    case D_NHND: return v.null ? "NHandle()" : "NHandle(&" + std::to_string(v.i) + ")";
     case D_STR: return cpp_str(POOL[v.si]);
     case D_CSTR: return v.null ? "nullptr" : cpp_str(POOL[v.si]);
     case D_S: return "S{" + std::to_string(v.i) + "," + cpp_str(POOL[v.si]) + "}";
@@ -310,7 +315,7 @@ const std::vector<Val>& domain_values(Dom d) {
   auto structs = [&](bool with_null) { if (with_null) { Val n; n.null = true; c.push_back(n); } for (int i = INT_LO; i <= INT_HI; ++i) for (int s = 0; s < NPOOL; ++s) { Val v; v.i = i; v.si = s; c.push_back(v); } };
   switch (d) {
     case D_INT: ints(false); break;
-    case D_PINT: case D_UPINT: case D_SPINT: ints(true); break;
+    case D_PINT: case D_UPINT: case D_SPINT: case D_HND: case D_NHND: case D_CPINT: ints(true); break;
     case D_STR: strs(false); break;
     case D_CSTR: strs(true); break;
     case D_S: structs(false); break;
@@ -374,6 +379,40 @@ bool operator==(S const& x, S const& y) { return x.a == y.a && x.s == y.s; }
 bool operator!=(S const& x, S const& y) { return !(x == y); }
 std::ostream& operator<<(std::ostream& os, S const& v) { return os << "S{" << v.a << ",\"" << v.s << "\"}"; }
 
+// ---- user-defined pointer-like parameter types. Dereferencing a null one is not left to a crash: it is counted, yields
+// a reference to a sink holding 0 (a value inside the int domain, so that the value check can fire as well), and every
+// place that runs library code compares the counter before and after (null_deref_seen).
+unsigned long g_null_derefs = 0;
+int g_null_sink = 0;
+int& null_deref_sink() { ++g_null_derefs; g_null_sink = 0; return g_null_sink; }
+
+// (a) the only comparisons are Handle against Handle; `h != nullptr` works through the implicit constructor, there is no
+// nullptr_t overload and no conversion to bool
+struct Handle {
+  Handle(std::nullptr_t) noexcept {}
+  explicit Handle(int* q) noexcept : p(q) {}
+  int& operator*() const { return p ? *p : null_deref_sink(); }
+  friend bool operator==(Handle const& x, Handle const& y) noexcept { return x.p == y.p; }
+  friend bool operator!=(Handle const& x, Handle const& y) noexcept { return x.p != y.p; }
+  friend std::ostream& operator<<(std::ostream& os, Handle const& h) { return h.p ? os << "Handle(&" << *h.p << ")" : os << "Handle(nullptr)"; }
+private:
+  int* p = nullptr;
+};
+// (b) dedicated nullptr_t comparisons (member and friends), explicit operator bool, not constructible from nullptr
+struct NHandle {
+  NHandle() noexcept {}
+  explicit NHandle(int* q) noexcept : p(q) {}
+  int& operator*() const { return p ? *p : null_deref_sink(); }
+  explicit operator bool() const noexcept { return p != nullptr; }
+  bool operator==(std::nullptr_t) const noexcept { return p == nullptr; }
+  bool operator!=(std::nullptr_t) const noexcept { return p != nullptr; }
+  friend bool operator==(std::nullptr_t, NHandle const& x) noexcept { return x.p == nullptr; }
+  friend bool operator!=(std::nullptr_t, NHandle const& x) noexcept { return x.p != nullptr; }
+  friend std::ostream& operator<<(std::ostream& os, NHandle const& h) { return h.p ? os << "NHandle(&" << *h.p << ")" : os << "NHandle()"; }
+private:
+  int* p = nullptr;
+};
+
 template <typename V> struct Tr;
 template <> struct Tr<int> { static constexpr Dom dom = D_INT; };
 template <> struct Tr<int*> { static constexpr Dom dom = D_PINT; using pointee = int; };
@@ -383,6 +422,9 @@ template <> struct Tr<std::string> { static constexpr Dom dom = D_STR; };
 template <> struct Tr<char const*> { static constexpr Dom dom = D_CSTR; };
 template <> struct Tr<S> { static constexpr Dom dom = D_S; };
 template <> struct Tr<S*> { static constexpr Dom dom = D_PS; using pointee = S; };
+template <> struct Tr<Handle> { static constexpr Dom dom = D_HND; using pointee = int; };
+template <> struct Tr<NHandle> { static constexpr Dom dom = D_NHND; using pointee = int; };
+template <> struct Tr<int const*> { static constexpr Dom dom = D_CPINT; using pointee = int; };
 
 template <typename V>
 struct HolderBase {
@@ -567,6 +609,9 @@ auto with_value(const Val& v, F&& f) {
   else if constexpr (d == D_STR) { std::string s(POOL[v.si]); return f(s); }
   else if constexpr (d == D_CSTR) { std::string s(POOL[v.si]); char const* p = v.null ? nullptr : s.c_str(); return f(p); }
   else if constexpr (d == D_S) { S s{v.i, POOL[v.si]}; return f(s); }
+  else if constexpr (d == D_HND) { std::unique_ptr<int> store(new int(v.i)); Handle h = v.null ? Handle(nullptr) : Handle(store.get()); return f(h); }
+  else if constexpr (d == D_NHND) { std::unique_ptr<int> store(new int(v.i)); NHandle h = v.null ? NHandle() : NHandle(store.get()); return f(h); }
+  else if constexpr (d == D_CPINT) { std::unique_ptr<int> store(new int(v.i)); int const* p = v.null ? nullptr : store.get(); return f(p); }
   else { std::unique_ptr<S> store(new S{v.i, POOL[v.si]}); S* p = v.null ? nullptr : store.get(); return f(p); }
 }
 
@@ -583,6 +628,9 @@ struct Mock {
   MAKE_MOCK1(fc, void(char const*));
   MAKE_MOCK1(fS, void(S const&));
   MAKE_MOCK1(fps, void(S*));
+  MAKE_MOCK1(fh, void(Handle));
+  MAKE_MOCK1(fnh, void(NHandle const&));
+  MAKE_MOCK1(fcp, void(int const*));
 };
 using Exp = std::unique_ptr<trompeloeil::expectation>;
 unsigned long g_nonfatal_reports = 0;
@@ -660,6 +708,27 @@ template <> Exp make_exp<S*>(Mock& mk, const Node& r, const char*& site) {
   return nullptr;
 }
 
+template <> Exp make_exp<Handle>(Mock& mk, const Node& r, const char*& site) {
+  if (r.k == K_DEREF) { auto k0 = build<int>(r.kids[0]); site = "Handle:*D";
+    return NAMED_ALLOW_CALL(mk, fh(*k0)); }
+  if (r.k == K_NOT && r.kids[0].k == K_DEREF) { auto k0 = build<int>(r.kids[0].kids[0]); site = "Handle:!*D";
+    return NAMED_ALLOW_CALL(mk, fh(!*k0)); }
+  auto d = build<Handle>(r); site = "Handle:D";
+  return NAMED_ALLOW_CALL(mk, fh(d));
+}
+template <> Exp make_exp<NHandle>(Mock& mk, const Node& r, const char*& site) {
+  if (r.k == K_DEREF) { auto k0 = build<int>(r.kids[0]); site = "NHandle const&:*D";
+    return NAMED_ALLOW_CALL(mk, fnh(*k0)); }
+  auto d = build<NHandle>(r); site = "NHandle const&:D";
+  return NAMED_ALLOW_CALL(mk, fnh(d));
+}
+template <> Exp make_exp<int const*>(Mock& mk, const Node& r, const char*& site) {
+  if (r.k == K_DEREF) { auto k0 = build<int>(r.kids[0]); site = "int const*:*D";
+    return NAMED_ALLOW_CALL(mk, fcp(*k0)); }
+  site = nullptr;
+  return nullptr;
+}
+
 void call_mock(Mock& mk, int& x) { mk.fi(x); }
 void call_mock(Mock& mk, int*& x) { mk.fp(x); }
 void call_mock(Mock& mk, std::unique_ptr<int>& x) { mk.fu(x); }
@@ -668,6 +737,9 @@ void call_mock(Mock& mk, std::string& x) { mk.fs(x); }
 void call_mock(Mock& mk, char const*& x) { mk.fc(x); }
 void call_mock(Mock& mk, S& x) { mk.fS(x); }
 void call_mock(Mock& mk, S*& x) { mk.fps(x); }
+void call_mock(Mock& mk, Handle& x) { mk.fh(x); }
+void call_mock(Mock& mk, NHandle& x) { mk.fnh(x); }
+void call_mock(Mock& mk, int const*& x) { mk.fcp(x); }
 
 // =====================================================================================================
 // 5. One case = (domain, tree a, optional tree b for the laws, e2e flag)
@@ -711,6 +783,17 @@ EvalFn make_eval(const M& m) {
   return [&m](const Val& v) { return with_value<V>(v, [&](V& x) { return trompeloeil::param_matches(m, std::ref(x)); }); };
 }
 
+// a null Handle / NHandle was dereferenced by library code since the counter read `before`: a disagreement of its own,
+// whatever the verdict computed from the sink value was
+__attribute__((noinline)) bool null_deref_seen(unsigned long before, const Case& c, const std::string& where, std::string& why) {
+  if (g_null_derefs == before) return false;
+  ST.label("null_handle_dereferences_detected");
+  if (why.empty())
+    why = "the library dereferenced a null pointer-like object (" + where + "): *m must reject a null pointer without looking at the pointee\nmatcher (" +
+          DOM_NAME[c.dom] + "): " + pretty(c.a, c.dom);
+  return true;
+}
+
 __attribute__((noinline)) bool run_oracle(const Case& c, const EvalFn& lib, std::vector<char>& expect, std::string& why, bool account) {
   Dom d = c.dom;
   const auto& vals = domain_values(d);
@@ -718,7 +801,9 @@ __attribute__((noinline)) bool run_oracle(const Case& c, const EvalFn& lib, std:
   expect.assign(vals.size(), 0);
   for (size_t i = 0; i < vals.size(); ++i) {
     bool o = oracle(c.a, d, vals[i]);
+    unsigned long nd0 = g_null_derefs;
     bool l = lib(vals[i]);
+    null_deref_seen(nd0, c, "param_matches on value " + val_str(d, vals[i]), why);
     expect[i] = o;
     (l ? acc : rej)++;
     if (vals[i].null) nulls++;
@@ -740,7 +825,9 @@ __attribute__((noinline)) bool run_oracle(const Case& c, const EvalFn& lib, std:
 __attribute__((noinline)) bool run_law(const Case& c, const char* name, const EvalFn& l, const EvalFn& r, bool negate_r, std::string& why, bool account) {
   Dom d = c.dom;
   for (auto& v : domain_values(d)) {
+    unsigned long nd0 = g_null_derefs;
     bool lv = l(v), rv = r(v);
+    if (null_deref_seen(nd0, c, std::string("law ") + name + " on value " + val_str(d, v), why)) return false;
     if (negate_r) rv = !rv;
     if (lv != rv) {
       why = std::string("law violated: ") + name + "\na (" + DOM_NAME[d] + ") = " + pretty(c.a, d) + "\nb = " + pretty(c.b, d) + "\nvalue: " + val_str(d, v) +
@@ -769,8 +856,9 @@ __attribute__((noinline)) bool run_e2e(const Case& c, const char* site, const st
   size_t step = vals.size() > 16 ? 7 : 1;
   for (size_t i = 0; i < vals.size(); i += step) {
     bool threw = false;
-    unsigned long nf0 = g_nonfatal_reports;
+    unsigned long nf0 = g_nonfatal_reports, nd0 = g_null_derefs;
     std::string msg = call(vals[i], threw);
+    if (null_deref_seen(nd0, c, std::string("mock call through expectation site ") + site + " with value " + val_str(d, vals[i]), why)) return false;
     bool ok = expect[i] ? !threw : (threw && msg.find("No match for call of") != std::string::npos);
     if (g_nonfatal_reports != nf0) ok = false;
     if (g_verbose) printf("  call(%s) via site %s: %s\n", val_str(d, vals[i]).c_str(), site, threw ? "fatal report" : "accepted");
@@ -803,8 +891,8 @@ bool check_typed(const Case& c, std::string& why, bool account) {
     if (!run_law(c, "!!a == a", make_eval<V>(notnot_a), ea, false, why, account)) return false;
     if (!run_law(c, "all_of(a) == a", make_eval<V>(all_a), ea, false, why, account)) return false;
     if (!run_law(c, "none_of(a) == not a", make_eval<V>(none_a), ea, true, why, account)) return false;
-    // the two-operand laws are instantiated for five of the eight domains (build time); the combinators are generic in the parameter type
-    if constexpr (d == D_INT || d == D_PINT || d == D_STR || d == D_CSTR || d == D_S) {
+    // the two-operand laws are instantiated for six of the eleven domains (build time); the combinators are generic in the parameter type
+    if constexpr (d == D_INT || d == D_PINT || d == D_STR || d == D_CSTR || d == D_S || d == D_HND) {
       auto any_ab = trompeloeil::any_of(da, db);
       auto any_ba = trompeloeil::any_of(db, da);
       auto all_ab = trompeloeil::all_of(da, db);
@@ -824,14 +912,19 @@ bool check_typed(const Case& c, std::string& why, bool account) {
     auto star = *da;
     auto nstar = !*da;
     auto null_law = [&](auto np, const char* what) {
+      unsigned long nd0 = g_null_derefs;
       bool s = trompeloeil::param_matches(star, std::ref(np));
       bool ns = trompeloeil::param_matches(nstar, std::ref(np));
+      if (null_deref_seen(nd0, c, std::string("null law of *m / !*m on a null ") + what, why)) return false;
       return null_law_result(c, what, s, ns, why, account);
     };
     if constexpr (d == D_INT) {
       if (!null_law(static_cast<int*>(nullptr), "int*")) return false;
       if (!null_law(std::unique_ptr<int>(), "unique_ptr<int>")) return false;
       if (!null_law(std::shared_ptr<int>(), "shared_ptr<int>")) return false;
+      if (!null_law(Handle(nullptr), "Handle")) return false;
+      if (!null_law(NHandle(), "NHandle")) return false;
+      if (!null_law(static_cast<int const*>(nullptr), "int const*")) return false;
     } else {
       if (!null_law(static_cast<S*>(nullptr), "S*")) return false;
     }
@@ -867,6 +960,9 @@ bool check_case(const Case& c, std::string& why, bool account) {
     case D_CSTR: return check_typed<char const*>(c, why, account);
     case D_S: return check_typed<S>(c, why, account);
     case D_PS: return check_typed<S*>(c, why, account);
+    case D_HND: return check_typed<Handle>(c, why, account);
+    case D_NHND: return check_typed<NHandle>(c, why, account);
+    case D_CPINT: return check_typed<int const*>(c, why, account);
     default: return true;
   }
 }
@@ -893,6 +989,18 @@ bool run_case(const Case& c, std::string* why_out, const char* origin) {
   ST.label("plain_values_as_direct_operands", static_cast<uint64_t>(sh.direct));
   if (c.dom == D_CSTR && has_guard(c.a)) ST.label("cstr_trees_with_null_guarded_string_operands");
   if (c.e2e) ST.label("cases_with_mock_calls");
+  if (is_ptr_dom(c.dom)) {  // which pointer kind met which top-level shape
+    const Node& r = c.a;
+    const char* sh2 = "leaf";
+    if (r.k == K_DEREF) sh2 = r.kids[0].k == K_NOT ? "*!m" : is_comb(r.kids[0].k) ? "*comb" : "*leaf";
+    else if (r.k == K_NOT) sh2 = r.kids[0].k == K_DEREF ? "!*m" : "!other";
+    else if (is_set(r.k)) {
+      size_t derefs = 0;
+      for (auto& k : r.kids) if (k.k == K_DEREF) derefs++;
+      sh2 = derefs >= 2 ? "set(*a,*b)" : derefs == 1 ? "set(one *m)" : "set(no *m)";
+    }
+    ST.label(std::string("ptr_shape_") + DOM_KEY[c.dom] + ":" + sh2);
+  }
   if (dp >= 2 && sh.combs >= 1 && sh.rel_in_domain >= 1) {
     std::string canon = std::string(DOM_KEY[c.dom]) + " " + sexpr(c.a);
     ST.nontrivial_case(vc::fnv1a(canon), std::string(DOM_NAME[c.dom]) + ": " + pretty(c.a, c.dom));
@@ -927,7 +1035,7 @@ Node gen_leaf(Dom d, bool safe) {
       else if (w < 90) n.k = K_WILD;
       else n.k = K_ANY;
       break;
-    case D_PINT: case D_UPINT: case D_SPINT: case D_PS:
+    case D_PINT: case D_UPINT: case D_SPINT: case D_PS: case D_HND: case D_NHND: case D_CPINT:
       if (w < 50) { n.k = K_NULLCMP; n.rel = pick(0, 2); n.typed = pick(0, 2) != 0; }
       else if (w < 70) { n.k = K_VALUE; n.direct = pick(0, 2) != 0; }
       else if (w < 85) n.k = K_WILD;
@@ -1021,9 +1129,18 @@ Node gen_node(Dom d, int depth_left, bool safe, GenCtx& g, int leaf_pct) {
       n.typed = o.second;
     }
   }
+  // pointer domains: any_of(*a, *b) / all_of(*a, *b) / none_of(*a, *b) would otherwise be rare (each operand draws * independently)
+  bool all_deref = is_ptr_dom(d) && max_arity(d) >= 2 && depth_left >= 3 && plain_mask == 0 && pick(0, 100) < 35;
+  if (all_deref) arity = 2;
   while (static_cast<int>(n.kids.size()) < arity) {
     size_t pos = n.kids.size();
-    if (plain_mask & (1u << pos)) {
+    if (all_deref) {
+      Node k;
+      k.k = K_DEREF;
+      g.budget--;
+      k.kids.push_back(gen_node(pointee_dom(d), depth_left - 2, false, g));
+      n.kids.push_back(k);
+    } else if (plain_mask & (1u << pos)) {
       Node v;
       v.k = K_VALUE;
       v.direct = true;
@@ -1056,7 +1173,8 @@ Case gen_case() {
   int size = *rc::gen::withSize([](int s) { return rc::gen::just(s); });
   int dmax = size < 3 ? 1 : size < 12 ? 2 : size < 30 ? 3 : 4;
   int w = pick(0, 100);
-  c.dom = w < 30 ? D_INT : static_cast<Dom>(1 + (w - 30) / 10);
+  c.dom = w < 30 ? D_INT : static_cast<Dom>(1 + (w - 30) / 7);  // int 30 %, each of the other ten domains 7 %
+  static_assert(D_COUNT == 11, "domain draw covers D_INT + ten others");
   c.e2e = pick(0, 5) == 0;
   GenCtx g;
   c.a = gen_node(c.dom, dmax, false, g, c.e2e ? 20 : 6);  // mock-call cases: more leaf roots, they have expectation sites of their own
@@ -1072,8 +1190,8 @@ Case gen_case() {
 
 // =====================================================================================================
 // 7. Bounded exhaustive enumeration (no randomness): every int tree of depth <= 2 with up to 2 operands over
-//    relational leaves with operands -3..7, wildcard, ANY and plain values; and every *leaf / !*leaf on the three
-//    pointer kinds
+//    relational leaves with operands -3..7, wildcard, ANY and plain values; and every *leaf / !*leaf on the six
+//    pointer kinds over int (int*, unique_ptr, shared_ptr, Handle, NHandle, int const*)
 // =====================================================================================================
 bool enumerate(std::string& why) {
   std::vector<Node> leaves;
@@ -1093,7 +1211,7 @@ bool enumerate(std::string& why) {
     if (l.direct) continue;
     Node nt; nt.k = K_NOT; nt.kids.push_back(l);
     if (!run(D_INT, nt)) return false;
-    for (Dom pd : {D_PINT, D_UPINT, D_SPINT}) {
+    for (Dom pd : {D_PINT, D_UPINT, D_SPINT, D_HND, D_NHND, D_CPINT}) {
       Node st; st.k = K_DEREF; st.kids.push_back(l);
       if (!run(pd, st)) return false;
       Node ns; ns.k = K_NOT; ns.kids.push_back(st);
@@ -1169,11 +1287,12 @@ int main(int argc, char** argv) {
   A = vc::parse_args(argc, argv);
   if (A.prop.empty()) A.prop = "C10";
   std::string mode = A.get("mode", "all");
-  ST.rule = "rapidcheck: size-scaled matcher trees (depth <= 4, <= 24 nodes) over 8 parameter domains (int -2..6, int*/unique_ptr<int>/shared_ptr<int> incl. null, "
+  ST.rule = "rapidcheck: size-scaled matcher trees (depth <= 4, <= 24 nodes) over 11 parameter domains (int -2..6, int*/unique_ptr<int>/shared_ptr<int>/int const* incl. null, user-defined pointer-likes Handle (implicitly constructible from nullptr, "
+            "compared only Handle==Handle) and NHandle (nullptr_t comparisons + explicit operator bool) incl. null, whose dereference while null is counted and is a disagreement by itself, "
             "std::string / char const* from a 12-string pool incl. \"\" and null, struct S{int;string}, S*), nodes eq/ne/lt/le/gt/ge, _, ANY, plain values, eq/ne(nullptr), "
             "re (10 patterns x icase x match_not_bol x 8 spellings), !, *, any_of/all_of/none_of with 1-4 operands, MEMBER_IS, duck-typed and explicitly typed; every tree is "
             "evaluated on its whole value domain through param_matches and compared with an independent evaluator, plus 7 algebraic laws (library against library) and the null laws of *m / !*m, plus real mock calls (accepted vs fatal No match report) for 1 case in 5; "
-            "enum mode: every int tree of depth <= 2 with <= 2 operands over leaves with operands -3..7. "
+            "enum mode: every int tree of depth <= 2 with <= 2 operands over leaves with operands -3..7, and *leaf / !*leaf over every int leaf for the six pointer kinds. "
             "non-trivial = depth >= 2 with >= 1 combinator and >= 1 relational leaf whose operand lies inside the value domain; distinct = FNV-1a of domain + canonical s-expression";
   trompeloeil::set_reporter([](trompeloeil::severity s, char const*, unsigned long, std::string const& msg) {
     if (s == trompeloeil::severity::fatal) throw fatal_report{msg};
